@@ -8,7 +8,7 @@ claim("C01", "exploration", "bounded exhaustive input enumeration on the real co
       "Trusts CPython and the harness's own decoder (ref2d.decode); CBC is the MILP back-end.", "DESIGN.md 3/C01")
 
 claim("C02", "exploration", "bounded exhaustive input enumeration on the real code against an exact branch-and-bound optimiser (small-scope model checking)",
-      "For every pairing on up to 10/12 positions, every chord diagram of up to 4/6 stems with stem lengths up to 3 and ladders up to 8/12 "
+      "For every pairing on up to 10/12 positions, every chord diagram of up to 4/6 stems with stem lengths up to 3 and ladders up to 11/12 "
       "mutually crossing stems, the decoded optimal notation is proper, its objective equals the exact optimum over all proper level "
       "assignments, and the three corollaries hold; the same for structures with 11-21 stems (hairpins around a small knot; a first-come-first-served baseline that is not an encoding of the structure is reported as such).",
       "Only the objective value is compared. Trusts CBC to solve the MILP it is given and the harness's branch-and-bound.", "DESIGN.md 3/C02")
@@ -52,20 +52,20 @@ claim("C14", "model_checking", "deviation-bounded exploration of set-iteration o
 claim("C20", "exploration", "bounded exhaustive enumeration of documents (deviation-bounded) x all edit operations on the real code, judged through an independent CIF tokenizer",
       "Every generated document within 2 (quick) / 3 (thorough, reduced list) deviations of the base document and the corpus mmCIF files, under every "
       "copy (category, from, to) and replace (category, item, alphabet) choice incl. absent and new ones: only the target item changes, "
-      "copy/replace semantics hold, absent category/source leaves the text untouched, and the CLI writes the library's result (also for mixed-case category and item names).",
+      "copy/replace semantics hold, absent category/source leaves the text untouched, and the CLI writes the library's result (also for mixed-case category and item names, and - when nothing is edited - for documents ending in blank lines, trailing blanks or no newline).",
       "Trusts the harness tokenizer mc/cif.py; category position in the file and too-short alphabets are outside the property.", "DESIGN.md 3/C20")
 
 claim("C19", "exploration", "exhaustive enumeration of label strings, line sequences and DSSR documents on the real code against a regular-expression grammar",
       "unify_classification on every string up to length 5 (quick) / 6 (thorough) over the 19-symbol FR3D alphabet; every sequence of up to 3/4 lines "
       "from a 28-line alphabet (incl. residues told apart by insertion code only) through parse_fr3d_output; every DSSR document with <=2 pairs and <=1 stack over the stated name and LW alphabets (single-pair documents also against a twin structure with the same positions and other residue names, in the same process): "
       "never raises, certain labels filed exactly, underivable labels kept as 'other', malformed lines skipped, DSSR pairs/stacks kept exactly when resolvable and valid.",
-      "Grammar in mc/ref/refadapter.py written from the property text; ambiguous labels (e.g. 's55a', 'S55') only have to yield exactly one interaction.", "DESIGN.md 3/C19")
+      "Grammar in mc/ref/refadapter.py written from the property text: any letter case for the Leontis-Westhof core only; stacking and backbone labels as spelled (0BPH is unrecognised); the remaining ambiguous labels (e.g. 's55a') only have to yield exactly one interaction.", "DESIGN.md 3/C19")
 
 claim("C09", "model_checking", "transition-system closure (BFS) over the real write/parse functions from every deviation-bounded start table, invariant checked in every state, plus independent column reader",
       "From every start table within 2 field deviations (thorough: 3 over layout-critical fields) of the base table, in both start formats, all chains of "
       "write_pdb/parse_pdb_atoms/write_cif/parse_cif_atoms up to depth 2 (quick) / 3 (thorough) reach only states whose PDB view equals the start table; "
       "every written PDB text obeys the 80-column layout, MODEL/ENDMDL bracketing and TER-after-every-chain; start tables include model numbers up to 9999 and, "
-      "through splitter.main, mmCIF input whose label ids differ from the author ids.",
+      "through splitter.main, mmCIF input whose label ids differ from the author ids; a blank chain identifier is a member of the PDB-start tables and TER columns are checked strictly.",
       "Independent emitters and column reader in mc/enumio.py; values are within PDB field widths.", "DESIGN.md 3/C09")
 
 claim("C10", "exploration", "exhaustive enumeration of a finite product of atom tables on the real code against an independent fit/feasibility/renaming oracle",
@@ -74,7 +74,7 @@ claim("C10", "exploration", "exhaustive enumeration of a finite product of atom 
       "tables are returned unchanged, unfittable ones raise ValueError, and every fitted table is within limits, keeps atom order and fields, renames "
       "chains/residues one-to-one preserving grouping and survives write_pdb + parse_pdb_atoms; the same on row subsets of composite tables (mask, iloc, "
       "groupby), on a 99990-atom table with interleaved chains, and through splitter.main / unifier.main -f PDB (a file per model that is the model up to a "
-      "proper renaming - unchanged when it fits - or no file and an error message exactly when no fit exists); tables whose last serial is exactly 99999 / 100000 and mmCIF tables with label ids differing from the author ids or without auth_atom_id / auth_comp_id are members.",
+      "proper renaming - unchanged when it fits - or no file and an error message exactly when no fit exists); tables whose last serial is exactly 99999 / 100000 and mmCIF tables with label ids differing from the author ids or without auth_atom_id / auth_comp_id are members; unifier.main is also run on three files that disagree on residue numbers.",
       "Tables are built by the library's own parsers from independently emitted text; PDB-derived tables are within limits by construction.", "DESIGN.md 3/C10")
 
 claim("C08", "exploration", "deviation-bounded exhaustive enumeration of abstract atom tables x formats x emitter options x requested models on the real reader, expectation computed from the abstract table",
@@ -108,7 +108,7 @@ claim("C03", "exploration", "exhaustive enumeration of placement lattices and co
       "On every structure of the two-nucleotide lattice (15.5k quick / ~600k thorough), the three-nucleotide competition family, every corpus variant "
       "(residue/atom deletions, jitter fields, cube rotations) and under every explored processing order of the hydrogen-bond candidate pairs: reported pairs "
       "are supported by >= 2 distinct contacts on their edges with the right cis/trans letter, no edge is used twice, and every pair demanded by the definition is reported or blocked by a taken edge - for find_pairs and for the pairs inside extract_base_interactions; "
-      "lattice residues rotate through identity modes (descending numbers, insertion codes), modified-residue names and backbone-less (base + C1') variants; one structure object holding two models is queried model by model.",
+      "lattice residues rotate through identity modes (descending numbers, insertion codes, numbers around zero), modified-residue names and backbone-less (base + C1') variants; one structure object holding two models is queried model by model; 297 placements with decision margins of 2e-5..2e-4 are judged at full precision.",
       "Continuous geometry is covered only on the stated lattices/families; margins below 1e-6 are undecided; reference tables are the harness's own copies.", "DESIGN.md 3/C03, 5.1")
 
 claim("C04", "exploration", "exhaustive enumeration of a stacking placement lattice and corpus variant families on the real annotator against a two-sided geometric reference",
@@ -135,5 +135,5 @@ claim("C06", "exploration", "exhaustive enumeration of all entry sequences up to
       "For three hosts (two chains; gap with '?' placeholders; non-nucleotide group), with and without gap detection, every sequence of up to 2 (quick) / 3 "
       "(thorough, stated restriction) entries over {20 ordered residue pairs incl. an absent residue} x {3-4 LW classes} x {no/table Saenger, XIX on letters defining no class}, and the own annotation of 6/11 corpus files with variations: BPSEQ numbering and "
       "letters, symmetric matching taken from canonical input pairs with conflict-free pairs kept, per-strand dot-bracket, balanced full-length extended rows "
-      "encoding every distinct input pair exactly once, all_dot_brackets members, and the adapter path returning the same texts (five hosts since the gap may sit in the middle, right behind the first or right before the last nucleotide).",
+      "encoding every distinct input pair exactly once, all_dot_brackets members, and the adapter path returning the same texts (seven hosts: the gap in the middle, right behind the first or right before the last nucleotide; a chain returning after another chain; an abasic first nucleotide named '?').",
       "Nucleotide classification and one-letter names are taken from the structure.", "DESIGN.md 3/C06")
